@@ -224,6 +224,9 @@ def gen(tier, rng):
         else:
             m = rng.randrange(1, 12)
             names = ["e%d" % j for j in range(m)] if rng.random() < 0.8 else [rng.choice([j, str(j), None, True]) for j in range(m)]
+            if rng.random() < 0.15:
+                # an element carrying the name of the root of trust itself (v2 names are unrestricted)
+                names[rng.randrange(m)] = rng.choice(["sgx_root", "sgx_root", "root"])
             els = []
             for j, nm in enumerate(names):
                 sb = "sgx_root" if j == 0 or rng.random() < 0.15 else names[rng.randrange(0, j)]
@@ -232,6 +235,16 @@ def gen(tier, rng):
         nm = rng.choice([0, 0, 1, 1, 2, 3])
         for _ in range(nm):
             doc = mutate(rng, doc)
+        if rng.random() < 0.06 and isinstance(doc.get("elements"), list):
+            # the root's name given to an element: self-signed, signed by a path element, dangling
+            ds = [x for x in doc["elements"] if isinstance(x, dict)]
+            if ds:
+                rootname = "root" if doc.get("version") == 1 else "sgx_root"
+                e = rng.choice(ds)
+                e["name"] = rootname
+                e["signed_by"] = rng.choice([rootname, "nobody"] + [x.get("name") for x in ds])
+                if rng.random() < 0.5 and isinstance(doc.get("targets"), list):
+                    doc["targets"] = doc["targets"] + [rootname]
         links = {}
         if isinstance(doc, dict) and isinstance(doc.get("elements"), list):
             keys = [key_of(e.get("name")) for e in doc["elements"] if isinstance(e, dict)]
